@@ -392,6 +392,11 @@ func C09(c *vf.Ctx) {
 		"memory bound checked: capacity of the reader's buffers, largest Read request, and bytes consumed of a never-fitting frame, each <= 4*Max+64KiB")
 	q := c.Quick()
 	e := newWireEngine(c, false)
+	// burst family first: long regular sequences, fixed-size and coarse reads
+	bwc := wireBase("burst")
+	bwc.defs["BurstCases"] = burstCases(q)
+	b := newWireEngine(c, false)
+	wireRun(c, "burst", bwc, 8, b.burst)
 	for _, rc := range reasmPlan(q) {
 		wc := wireBase("reasm")
 		wc.defs["Cfgs"], wc.defs["IdRels"], wc.defs["KindRels"], wc.defs["Ctls"], wc.defs["Pays"], wc.defs["Fins"] = rc.cfgs, rc.idRels, rc.kindRels, rc.ctls, rc.pays, rc.fins
@@ -402,14 +407,10 @@ func C09(c *vf.Ctx) {
 		wireRun(c, rc.label, wc, rc.workers, e.record)
 		if fastFail(c) {
 			e.finish("")
+			b.finish("burst_")
 			return
 		}
 	}
-	// burst family: long regular sequences, fixed-size and coarse reads
-	wc := wireBase("burst")
-	wc.defs["BurstCases"] = burstCases(q)
-	b := newWireEngine(c, false)
-	wireRun(c, "burst", wc, 8, b.burst)
 	e.finish("")
 	b.finish("burst_")
 	c.Cov["rule"] = "TLC enumerates Wire.tla (mode reasm): every frame sequence up to the stated depth over the alphabet {id relative to the watermark} x {kind same/different} x done x control x payload {0,1,Max,Max+1}, each optionally ended by a hostile tail (frame cut in the header / in the payload with pending bytes around Max+28..Max+32, 11-byte varint in each field, length field 2^63, a peer that never stops sending) and a final transport condition (EOF, error, 100 empty reads); plus long regular bursts (mode burst). A case is distinct by its record (Max, frames, tail, final condition); every case is executed on the real Reader under all compositions of the byte stream (<= 14 bytes) or all-at-once / byte-at-a-time / every cut / every pair of cuts / fixed sizes / seeded random partitions, with the error delivered with the last data or alone and with runs of empty reads, and compared packet by packet (id, kind, control bit, every data byte) and by error class with the result TLC computed."
